@@ -104,7 +104,7 @@ held_value(int H, const struct rc_day *p, struct dt_dt_s *out)
 /* date specifiers of info/format.texi (order: simplest first) */
 static const char *const c02_specs[] = {
 	"%F", "%Y", "%m", "%d", "%y", "%_y", "%j", "%D", "%a", "%A", "%_a", "%b", "%B", "%_b", "%u", "%w",
-	"%c", "%C", "%G", "%g", "%V", "%U", "%W", "%q", "%Q", "%Od", "%Om", "%Oy", "%OY", "%dth", "%mth", "%db", "%dB",
+	"%c", "%C", "%G", "%g", "%V", "%U", "%W", "%q", "%Q", "%Od", "%Om", "%Oy", "%OY", "%Oc", "%dth", "%mth", "%db", "%dB",
 };
 #define C02_NSPEC	((int)(sizeof(c02_specs) / sizeof(*c02_specs)))
 
